@@ -227,7 +227,9 @@ func (e *Engine) onInterest(args ndn.InterestHandlerArgs) {
 	// The reply callback function
 	args.Reply = func(encodedData enc.Wire) error {
 		now := e.timer.Now()
-		if args.Deadline.Before(now) {
+		// The lifetime ends at the deadline (the timeout sweep in Express counts an
+		// Interest as expired from then on): only an earlier reply is sent.
+		if !now.Before(args.Deadline) {
 			e.log.WithField("name", name).Warn("Deadline exceeded. Drop.")
 			return ndn.ErrDeadlineExceed
 		}
